@@ -161,3 +161,17 @@ def recount (sample : List Nat) : List Nat × List Nat :=
   (keys, keys.map fun i => sample.count i)
 
 end Prs
+
+namespace Prs
+/-- `get_default_metric_for_input_data`: the default metric chosen from the input kind -/
+inductive MetricId | levenshtein | alphaCdr3 | betaCdr3 | cdr3
+  deriving DecidableEq, Repr
+
+def defaultMetric (isTable hasCdr3A hasCdr3B : Bool) : MetricId :=
+  if isTable then
+    if hasCdr3A && hasCdr3B then .cdr3
+    else if hasCdr3A then .alphaCdr3
+    else if hasCdr3B then .betaCdr3
+    else .levenshtein
+  else .levenshtein
+end Prs
